@@ -122,6 +122,7 @@ def flowOf : String → Option Flow
   | "p7" => some .p7
   | "p7ac" => some .p7ac
   | "manifest" => some .manifest
+  | "manifestec" => some .manifest     -- same flow with an ECDSA leaf certificate
   | _ => none
 
 def allOn : SignCfg := ⟨true, false, false, true⟩
